@@ -682,7 +682,9 @@ fn chk_b60(p: &[i64]) -> Check {
 fn chk_df20_label(p: &[i64]) -> Check {
     let (tc, a12, a13) = (p[0] as u8, p[1] as u16, p[2] as u16);
     thread_local! { static T: c13::Tables = c13::tables(); }
-    let mut r = fill("df20label", p);
+    // the payload is a function of (type code, altitude code) only: the sweep offers the very same 56 bits under four
+    // different headers one after the other, in the order "equal altitude first" for even codes and last for odd ones
+    let mut r = fill("df20label", &p[..2]);
     let x = r.next();
     let mb = enc::me_airborne(&enc::AirborneMe { tc, ss: 0, saf: 0, alt12: a12, t: 0, f: (x & 1) as u8, lat: ((x >> 1) & 0x1ffff) as u32, lon: ((x >> 18) & 0x1ffff) as u32 });
     let frame = enc::df20(0, 0, 0, a13, &mb, ((x >> 36) & 0xff_ffff) as u32);
@@ -1089,10 +1091,15 @@ pub fn run(ctx: &Ctx) {
     for a12 in 0..4096i64 {
         let same = c13::ac12_to_ac13(a12 as u16) as i64;
         let tc = [9, 11, 15, 18, 20, 21, 22][(a12 % 7) as usize];
-        v.push(vec![tc, a12, same]);
+        if a12 % 2 == 0 {
+            v.push(vec![tc, a12, same]);
+        }
         v.push(vec![tc, a12, same ^ 0x1]);
         v.push(vec![tc, a12, same ^ 0x80]);
         v.push(vec![tc, a12, enc::ac13_q(1560) as i64]);
+        if a12 % 2 == 1 {
+            v.push(vec![tc, a12, same]);
+        }
     }
     sweep(ctx, "df20label", f("df20label"), v.into_iter());
     sample_of(ctx, "df20label", &[11, 0xc38, c13::ac12_to_ac13(0xc38) as i64]);
@@ -1141,6 +1148,24 @@ pub fn replay(ctx: &Ctx, v: &Value) {
     let p: Vec<i64> = v["p"].as_array().map(|a| a.iter().filter_map(|x| x.as_i64()).collect()).unwrap_or_default();
     ctx.eval();
     if let Some((_, f)) = FIELDS.iter().find(|x| x.0 == kind) {
+        if kind == "df20label" && p.len() == 3 {
+            // the sweep offers the same payload under four headers in a row: replay the whole group in sweep order
+            let (tc, a12) = (p[0], p[1]);
+            let same = c13::ac12_to_ac13(a12 as u16) as i64;
+            let mut group = vec![];
+            if a12 % 2 == 0 {
+                group.push(same);
+            }
+            group.extend([same ^ 0x1, same ^ 0x80, enc::ac13_q(1560) as i64]);
+            if a12 % 2 == 1 {
+                group.push(same);
+            }
+            for a13 in group {
+                if !ctx.judge(f(&[tc, a12, a13])) {
+                    return;
+                }
+            }
+        }
         ctx.judge(f(&p));
         return;
     }
